@@ -326,7 +326,7 @@ func Main(r *core.Run) {
 		}
 	}
 	rec(nil)
-	r.Rule(fmt.Sprintf("%d graphs (trees ≤%d nodes, every cut into blocks, dangling links, link chains); (1) every visit of every walk with %d selectors and of WalkLocal: reported path (as reported and re-parsed) → Get/Focus/stepwise = visited node; (2) every node position addressed by its own keys/indices in string, int and parsed form; (3) every path of ≤3 segments over %v (%d paths) vs the reference resolver; (4) every segment string ≤3 bytes over {a / . 0 é-bytes NUL} and every path of ≤3 such segments through String/ParsePath, Equals as an equivalence; (5) paths as values: every program of path operations up to the depth in bounds.path_algebra, every live path compared with its model after every step. Non-trivial = path of ≥2 segments or crossing a link; distinct by construction.", len(gs), map[bool]int{true: 4, false: 5}[quick], len(ss), segAlphabet, len(paths)))
+	r.Rule(fmt.Sprintf("%d graphs (trees ≤%d nodes, every cut into blocks, dangling links, link chains); (1) every visit of every walk with %d selectors and of WalkLocal: reported path (as reported and re-parsed) → Get/Focus/stepwise = visited node; (2) every node position addressed by its own keys/indices in string, int and parsed form; (3) every path of ≤3 segments over %v (%d paths) vs the reference resolver; (4) every segment string ≤3 bytes over {a / . 0 é-bytes NUL} and every path of ≤3 such segments through String/ParsePath, Equals as an equivalence; (5) paths as values: every program of path operations up to the depth in bounds.path_algebra, every live path compared with its model after every step; (6) typed nodes: both views of every family root type's richest values (reflection binding) walked, every visit's path resolved by Get and stepwise. Non-trivial = path of ≥2 segments or crossing a link; distinct by construction.", len(gs), map[bool]int{true: 4, false: 5}[quick], len(ss), segAlphabet, len(paths)))
 	r.Assume("non-canonical numerals on lists (\"01\", \"+1\") are unspecified: only Get ⇔ Focus ⇔ stepwise agreement is required there")
 	core.ParallelFor(len(gs), func(gi int) {
 		b := trav.Build(gs[gi])
@@ -389,6 +389,7 @@ func Main(r *core.Run) {
 	})
 	segmentStrings(r)
 	pathAlgebra(r)
+	typedVisits(r)
 	r.Sample(Case{Mode: "path", Graph: gs[len(gs)-1], Segs: []string{"a", "1", "1"}, Form: "int"})
 	r.Sample(Case{Mode: "visit", Graph: gs[len(gs)/2], Sel: ss[len(ss)-1]})
 }
@@ -503,6 +504,13 @@ func segmentStrings(r *core.Run) {
 }
 
 func Replay(r *core.Run, mode string, raw json.RawMessage) {
+	if mode == "typed" {
+		var c TCase
+		json.Unmarshal(raw, &c)
+		fs, _ := CheckTyped(c)
+		r.Report("typed", c, fs)
+		return
+	}
 	if mode == "algebra" {
 		var c AlgCase
 		json.Unmarshal(raw, &c)
